@@ -400,6 +400,54 @@ pub fn abort_line(toks: &[&str]) -> String {
     format!("{} ; conv={} ; fs={}", r1, a, listing(&root))
 }
 
+/// real-time behaviour of a download whose client falls silent after ACK 0:
+/// `timing <root> <flags> <fs> <rrq-hex>` -> seconds between the first two transmissions of DATA 1 and the
+/// number of times DATA 1 is sent before the server gives up
+pub fn timing_line(toks: &[&str]) -> String {
+    if toks.len() != 5 {
+        return "bad-op".into();
+    }
+    let (Some(root_b), Some(dgram)) = (unhex(toks[1]), unhex(toks[4])) else { return "bad-op".into() };
+    let root = PathBuf::from(String::from_utf8(root_b).unwrap());
+    let fl = parse_flags(toks[2]);
+    let port = server_port(&root, toks[2]);
+    if !reset_sandbox(&root, &fl, toks[3]) {
+        return "bad-op".into();
+    }
+    let listener: SocketAddr = format!("127.0.0.1:{}", port).parse().unwrap();
+    let sock = UdpSocket::bind("127.0.0.1:0").unwrap();
+    sock.send_to(&dgram, listener).unwrap();
+    let Some((Ok(Packet::Oack(opts)), from, _)) = recv_packet(&sock, Duration::from_millis(1500)) else {
+        return "first=other".into();
+    };
+    let mut tmo = 5u64;
+    for o in &opts {
+        if o.option == tftpd::OptionType::Timeout {
+            tmo = o.value as u64;
+        }
+    }
+    sock.send_to(&Packet::Ack(0).serialize().unwrap(), from).unwrap();
+    let mut stamps: Vec<std::time::Instant> = vec![];
+    loop {
+        match recv_packet(&sock, Duration::from_millis(tmo * 1000 * 5 / 2)) {
+            Some((Ok(Packet::Data { block_num: 1, .. }), _, _)) => stamps.push(std::time::Instant::now()),
+            Some(_) => {}
+            None => break,
+        }
+        if stamps.len() > 40 {
+            break;
+        }
+    }
+    let interval = if stamps.len() >= 2 {
+        let d = stamps[1].duration_since(stamps[0]).as_millis() as u64;
+        // to the nearest second; 400 ms of slack either way
+        format!("{}", (d + 500) / 1000)
+    } else {
+        "none".to_string()
+    };
+    format!("first=oack interval={} transmissions={}", interval, stamps.len())
+}
+
 /// a batch of hostile datagrams from several sources, then a probe request
 pub fn storm_line(toks: &[&str]) -> String {
     if toks.len() < 5 {
